@@ -114,7 +114,7 @@ def to_regex(items, roles, tr_filter, collect=None):
                 if collect is not None:
                     collect.append((s, d))
         elif k == "user":
-            if tr_filter(it[1]["tr"]):
+            if tr_filter(it[1]["tr"]) and tr_filter(it[1].get("tr_challenge", it[1]["tr"])):
                 seq.append(("sym", ("USER", "", "")))
         elif k == "star":
             inner = to_regex(it[1], roles, tr_filter, collect)
